@@ -71,7 +71,8 @@ func vpC13Item(shape int, id IRI) Item {
 }
 
 // the component in which the ids of one pool differ: 0 path letter, 1 host letter, 2 port digit,
-// 3 query value (everything else equal), 4-6 the opaque part of a urn, mailto or tag id
+// 3 query value (everything else equal), 4-6 the opaque part of a urn, mailto or tag id, 7-9 one value of a
+// repeated query key or of the second of two keys
 var vpC13IDForm int
 
 func vpC13ID(c byte) IRI {
@@ -88,6 +89,12 @@ func vpC13ID(c byte) IRI {
 		return IRI("mailto:" + string([]byte{c}) + "@h.ex")
 	case 6:
 		return IRI("tag:h.ex,2020:" + string([]byte{c}))
+	case 7: // a repeated query key: the later value differs (seed C13-18), the earlier one, or that of a second key
+		return IRI("https://h.ex/x?k=a&k=" + string([]byte{c}))
+	case 8:
+		return IRI("https://h.ex/x?k=" + string([]byte{c}) + "&k=a")
+	case 9:
+		return IRI("https://h.ex/x?j=a&k=" + string([]byte{c}))
 	}
 	return IRI("https://h.ex/" + string([]byte{c}))
 }
@@ -267,7 +274,7 @@ func vpH_C13_step_rich_ocoll() { vpC13Step(3, 1, -8) }
 
 // ids that differ only in host, only in port, only in a query value, or only in their opaque part
 func vpH_C13_step_id_forms() {
-	vpC13IDForm = 1 + vpChoice(6)
+	vpC13IDForm = 1 + vpChoice(9)
 	kind := []int{0, 1, 3}[vpChoice(3)]
 	vpC13Step(kind, 1, 2)
 	vpC13IDForm = 0
